@@ -33,6 +33,9 @@ def atom(kind, i, t):
     if kind == 'nq':        # a defined one
         nm = ('R&D %d' % i, "it's %d" % i, 'a<b> %d' % i)[i % 3]
         return N(nm), nm, {nm: val}
+    if kind == 'nt':        # a document template with defaults of its own, found by name: rendered, and what it gives is the value
+        prog = ([T('R%d' % i), V('marker'), V('tf')] if t else [Call(N('tf'))])
+        return N('t%d' % i), 't%d' % i, {'t%d' % i: tmpl('TT%d' % i, prog, {'marker': plain('M%d' % i)}), 'tf': fn('TF', plain('tf'))}
     if kind == 'xc':
         return C(c), c, {c: f}
     if kind == 'xv':
@@ -44,7 +47,7 @@ def atom(kind, i, t):
     raise ValueError(kind)
 
 
-ATOMS = [('nf', True), ('nf', False), ('np', True), ('np', False), ('u', False), ('uq', False), ('nq', True), ('xc', True),
+ATOMS = [('nt', True), ('nt', False), ('nf', True), ('nf', False), ('np', True), ('np', False), ('u', False), ('uq', False), ('nq', True), ('xc', True),
          ('xc', False), ('xv', True), ('xv', False), ('xn', True), ('xn', False)]
 
 
